@@ -35,6 +35,7 @@ def pick_length(r, rate, conf):
 
 
 class C07(Check):
+    env_warnings_as_errors = True
     pid = "C07"
     level = "exploration"
     chunk = 8
@@ -281,6 +282,7 @@ class C07(Check):
 
 
 class C08(Check):
+    env_warnings_as_errors = True
     pid = "C08"
     level = "exploration"
     chunk = 10
@@ -503,6 +505,11 @@ class C08(Check):
                     res.violate("C08.7 observers-see-same-events", r["cls"], f"primary observer saw {len(a)} events, second observer {len(b)} (raising observer: {kn.get('raising_observer')})", at=i)
                     ok = False
             if not ok or len(res["viol"]) >= 4:
+                break
+        for copy_at_callback, kept, kind in rx.primary.held:
+            if len(kept) != len(copy_at_callback) or any(a is not b for a, b in zip(kept, copy_at_callback)):
+                res.violate("C08.3 handed-over-list-changed-later", kind, f"the blocks list handed over by {kind} ({len(copy_at_callback)} blocks) was changed by the "
+                            f"library after the callback returned (now {len(kept)} blocks): an observer that keeps what it was handed sees other transmissions' blocks")
                 break
         if rx.raiser is not None and rx.raiser.raised:
             res.fault("observer_raises", rx.raiser.raised)
